@@ -523,12 +523,11 @@ pub fn do_delete(
     let m2 = monitor.clone();
     let ids: Vec<BandId> = bands.iter().map(|b| BandId::new(&[*b])).collect();
     // The order seam is a thread-local of the thread driving delete_bands.
-    if flavor == Flavor::Current {
-        conserve::transport::verif::set_order_seam(order.map(|perm| {
-            Box::new(move |v: &mut Vec<conserve::BlockHash>| apply_perm(v, &perm))
-                as Box<dyn Fn(&mut Vec<conserve::BlockHash>)>
-        }));
-    }
+    // (block_on polls the main future on the calling thread for every flavour.)
+    conserve::transport::verif::set_order_seam(order.map(|perm| {
+        Box::new(move |v: &mut Vec<conserve::BlockHash>| apply_perm(v, &perm))
+            as Box<dyn Fn(&mut Vec<conserve::BlockHash>)>
+    }));
     let end = drive(flavor, icpt, async move {
         let archive = Archive::open(transport).await.map_err(|e| format!("open: {e}"))?;
         archive
@@ -543,9 +542,7 @@ pub fn do_delete(
             .await
             .map_err(|e| format!("{e}"))
     });
-    if flavor == Flavor::Current {
-        conserve::transport::verif::set_order_seam(None);
-    }
+    conserve::transport::verif::set_order_seam(None);
     let (op, stats) = finish_op(end, &monitor);
     DeleteOut { op, stats }
 }
